@@ -425,7 +425,8 @@ def r3_ids(program, folder, rep):
         raise AnalysisError("_get_next_nn_id: one return expected")
     rn = it.cfg.node_of(rets[0])
     val = it.sym(rets[0].value, rn)
-    ok = it.holds_at(rn, [le(1, N), le(N, 126)]) and val == N * 2
+    ok = it.holds_at(rn, [le(1, N), le(N, 126)]) and (
+        val == N * 2 or it.holds_at(rn, eq(val, N * 2)))
     rep.check(ok, "C09-R3", inst, "the id stays in 1..126 (given 0..126 "
               "before) and is sent doubled: even, <= 252, fits 8 bits",
               construct="nn id range", node=fn,
@@ -612,6 +613,7 @@ def r4_retry(program, rep):
     # waiting under this app id equals the number requested
     AM = None
     okn = False
+    unread_count = False
     n_empty = 0
     for b_ in T.binds:
         if b_.var != UNL[1].var or b_.mode != "assign" or \
@@ -637,6 +639,23 @@ def r4_retry(program, rep):
             m_ = match(("call", ("global", "sum"), ((
                 "genexp", ("call", ("global", "len"), (V("c"),), ()),
                 V("g")),), ()), CC)
+            if m_ is not None and len(m_["g"]) == 1 and not m_["g"][0][1]:
+                # sum(len(c) for c in chain.from_iterable(e for a in A)) is
+                # sum(len(c) for a in A for c in e)
+                it_ = m_["g"][0][0]
+                if it_[0] == "call" and it_[1] in (
+                        ("attr", ("attr", ("global", "itertools"), "chain"),
+                         "from_iterable"),
+                        ("attr", ("global", "chain"), "from_iterable")) and \
+                        len(it_[2]) == 1 and it_[2][0][0] in (
+                            "genexp", "listcomp") and \
+                        len(it_[2][0][2]) == 1 and m_["c"] == ("elem", it_):
+                    inner_ = it_[2][0]
+                    m_ = {"c": ("elem", inner_[1]),
+                          "g": (inner_[2][0], (inner_[1], ()))}
+            if m_ is None or len(m_["g"]) != 2:
+                # the number requested is computed some other way
+                unread_count = True
             okn = m_ is not None and len(m_["g"]) == 2
             if okn:
                 (i1, c1), (i2, c2) = m_["g"]
@@ -648,6 +667,9 @@ def r4_retry(program, rep):
     if n_empty == 0:
         deferred = ("load_application: where the count mode declares "
                     "everything loaded was not found")
+    elif n_empty == 1 and not okn and unread_count:
+        deferred = ("load_application: the number of cores requested is "
+                    "computed in a form that is not analysed")
     elif n_empty == 1 and not okn and not any(
             st_[0] == "call" and st_[1] == ("global", "sum")
             for t, p_ in f for st_ in subterms(t)):
